@@ -379,6 +379,10 @@ func verifE3Doc(nbuf, nbytes, style, s2fail int, unbalanced bool, limit, adv int
 	if unbalanced {
 		b.WriteByte('[')
 	}
+	if verifE3S1Fail {
+		// a raw control character inside a string: stage 1 sends every buffer and reports failure at the end
+		b.WriteString("\\"\\x01\\",")
+	}
 	x := uint32(12345)
 	if style == 0 {
 		for b.Len() < nbytes-3 {
@@ -410,6 +414,20 @@ func verifE3Doc(nbuf, nbytes, style, s2fail int, unbalanced bool, limit, adv int
 	}
 	b.WriteString("7]")
 	return b.Bytes()
+}
+
+var verifE3S1Fail = %(s1fail)s
+
+// TestVerifE3Race: the unsynchronised conflicting accesses of a Q1.race witness are confirmed by the Go race detector on an
+// uninstrumented run (the schedule-forcing hooks would themselves order the two accesses) of a document of the scenario class
+func TestVerifE3Race(t *testing.T) {
+	doc := verifE3Doc(%(nbuf)d, %(nbytes)d, %(style)d, %(s2fail)d, %(unbalanced)s, %(limit)d, %(adv)d)
+	fmt.Printf("VERIF-E3: doc %%d bytes\\n", len(doc))
+	for i := 0; i < 3; i++ {
+		_, err := Parse(doc, nil)
+		fmt.Printf("VERIF-E3: outcome returned err=%%v\\n", err != nil)
+	}
+	time.Sleep(200 * time.Millisecond)
 }
 
 func TestVerifE3Replay(t *testing.T) {
@@ -484,7 +502,7 @@ def replay_witness(ctx, c, wit, scen):
     files = RP.instrument(rp["sites"])
     files["zz_verif_e3rt.go"] = RP.rt_source()
     steps = ", ".join('{"%s", "%s", %d, %d}' % tuple(s) for s in rp["steps"])
-    src = REPLAY_TEST % {"nbuf": nbuf, "style": style, "s2fail": s2fail, "unbalanced": "true" if unbalanced else "false",
+    src = REPLAY_TEST % {"s1fail": "false", "nbuf": nbuf, "style": style, "s2fail": s2fail, "unbalanced": "true" if unbalanced else "false",
                          "limit": c["limit"], "adv": adv, "nbytes": nbytes, "hang": 6, "deadline": 4,
                          "steps": steps, "slots": ", ".join(str(x) for x in rp["slots"]), "preonly": ", ".join(str(x) for x in rp.get("pre_only", ())),
                          "alias": ", ".join('"%s": "%s"' % kv for kv in sorted(rp.get("alias", {}).items())),
@@ -503,6 +521,22 @@ def replay_witness(ctx, c, wit, scen):
         ok = followed and kv.get("outcome") == "hang"
     else:
         ok = followed and (kv.get("same") == "false" or kv.get("outcome") == "hang")
+        if not ok:
+            # a race need not change the outcome of one run: confirm the unsynchronised pair with the race detector, on documents
+            # of the scenario class with and without a stage-1 failure (a raw control character) and a stage-2 failure
+            for s1f, s2f in ((True, max(s2fail, 1)), (False, max(s2fail, 1)), (True, 0)):
+                files2 = {"zz_verif_e3rt.go": RP.rt_source()}
+                files2["zz_verif_e3replay_test.go"] = REPLAY_TEST % {
+                    "s1fail": "true" if s1f else "false", "nbuf": nbuf, "style": 0, "s2fail": s2f, "unbalanced": "false",
+                    "limit": c["limit"], "adv": adv, "nbytes": nbytes, "hang": 6, "deadline": 4, "steps": "", "slots": "", "preonly": "",
+                    "alias": "", "evsites": "", "reference": "", "compare": ""}
+                rc2, out2, kv2 = RP.run_replay(files2, "TestVerifE3Race", timeout=300, extra_args=["-race"], extra_env={"CGO_ENABLED": "1"})
+                ctx.replays += 1
+                if "WARNING: DATA RACE" in out2:
+                    locs = [l.strip() for l in out2.splitlines() if "parse_json_amd64.go" in l or "stage" in l and ".go:" in l][:4]
+                    return True, "native (race detector, uninstrumented run, doc %s bytes, stage-1 failure=%s, stage-2 failure in buffer %d): DATA RACE %s" % (
+                        kv2.get("doc", "?").split()[0], s1f, s2f, " | ".join(locs))
+            text += "; race detector on uninstrumented runs: no report"
     return ok, text
 
 
